@@ -103,6 +103,33 @@ pub fn push_decoder<K: BufKind>(stream: &[u8]) -> (Vec<(usize, Ev)>, Option<Deco
     (out, fin)
 }
 
+/// A buffer of kind `B` that already holds (up to its capacity) the given stale bytes.
+pub fn prefilled<B: Buffer>(junk: &[u8]) -> B {
+    let mut b = B::default();
+    for &x in junk {
+        if b.push(x).is_err() {
+            break;
+        }
+    }
+    b
+}
+
+/// Stale buffer contents used for `Decoder::from_buf`: a few zeros / 0x1b / data bytes derived from the stream.
+pub fn junk_for(stream: &[u8]) -> Vec<u8> {
+    let mut j = vec![0x00, 0x1b, 0x5a, 0x00];
+    j.extend(stream.iter().rev().take(3));
+    j
+}
+
+/// Push decoder constructed with `Decoder::from_buf` over a buffer that already holds bytes, then `finalize()`.
+pub fn push_decoder_from_buf<K: BufKind>(stream: &[u8]) -> (Vec<(usize, Ev)>, Option<DecodeErr>) {
+    let mut dec = Decoder::<K::B>::from_buf(prefilled(&junk_for(stream)));
+    let mut out = Vec::new();
+    push_all(&mut dec, stream, 0, &mut out);
+    let fin = dec.finalize();
+    (out, fin)
+}
+
 /// Events of the push decoder with the finalize result appended as a trailing error (like `decode`).
 pub fn push_decoder_flat<K: BufKind>(stream: &[u8]) -> Vec<Ev> {
     let (evs, fin) = push_decoder::<K>(stream);
@@ -435,7 +462,7 @@ pub fn agreement<K: BufKind>(stream: &[u8], extra: usize, with_default: bool) ->
     }
     let mut flat: Vec<Ev> = events.iter().map(|(_, e)| e.clone()).collect();
     let plain = flat.clone();
-    if let Some(e) = fin {
+    if let Some(e) = fin.clone() {
         flat.push(Ev::Err(e));
     }
     let mut n = 1;
@@ -443,6 +470,16 @@ pub fn agreement<K: BufKind>(stream: &[u8], extra: usize, with_default: bool) ->
     let mism = |name: &str, got: String| -> (String, String) {
         (name.to_string(), format!("{} reports {} but {} reports {} (leftover {})", name, got, base, show(&plain), leftover))
     };
+    // Decoder::from_buf over a buffer with stale contents
+    let (ev2, fin2) = push_decoder_from_buf::<K>(stream);
+    n += 1;
+    if ev2 != events || fin2 != fin {
+        let mut f2: Vec<Ev> = ev2.iter().map(|(_, e)| e.clone()).collect();
+        if let Some(e) = fin2 {
+            f2.push(Ev::Err(e));
+        }
+        return Err(mism("Decoder::from_buf(buffer with stale contents)+finalize", show(&f2)));
+    }
     // decode()
     let d = decode_fn(stream);
     n += 1;
